@@ -72,7 +72,7 @@ func runC10(k int, rng *Rng) CaseResult {
 	}
 	installHooks(stdHooks())
 	w := NewWorld("C10", rng, cfg, caseDir(k, "c10"))
-	w.storeWant = true
+	w.storeWant = false
 	defer w.Cleanup()
 	if !w.OpenCreate() {
 		return w.finish(nil, false, nil)
